@@ -658,6 +658,32 @@ func runAtomicReplace(c *Ctx) {
 				c.Bad(key, call.Pos(), "os."+name+" on a sidecar path: the metadata file may only be replaced by WriteFile(temp)+Rename")
 			}
 		})
+		// reads: only the sidecar path itself is ever loaded - the temp name exists only between WriteFile and Rename, and a
+		// leftover is stale by construction (nothing removes it when the data file is found missing)
+		nr := 0
+		cfg.Calls(func(r NodeRef, call *ast.CallExpr) {
+			var pathArg ast.Expr
+			what := ""
+			if g := p.CalleeInfo(info, call); g != nil && g.Name == "transfer.LoadSidecar" && len(call.Args) == 1 {
+				pathArg, what = call.Args[0], "LoadSidecar"
+			} else if (calleeIs(info, call, "os", "ReadFile") || calleeIs(info, call, "os", "Open")) && len(call.Args) == 1 && mentionsScPath(f, k, call.Args[0]) {
+				pathArg, what = call.Args[0], "os read"
+			}
+			if pathArg == nil {
+				return
+			}
+			nr++
+			sh := pathShape(f, k, pathArg, 2)
+			suffixed := strings.HasPrefix(sh, "P+")
+			if !suffixed {
+				// a concatenation on something that is itself a path parameter (closure called with the sidecar paths)
+				if be, ok := ast.Unparen(pathArg).(*ast.BinaryExpr); ok && be.Op == token.ADD {
+					suffixed = true
+				}
+			}
+			c.Check(!suffixed, fmt.Sprintf("sidecar-read/%s#%d/%s", f.Name, nr, what), call.Pos(), "loads the sidecar path itself",
+				"resume metadata is loaded from a derived name ("+types.ExprString(pathArg)+"): the temp file of an interrupted flush is not covered by the stale-metadata removal, so a leftover is adopted for a recreated, zero-filled data file and marks chunks that are not there")
+		})
 		// dirty = false must-pass the checked rename
 		cfg.EachNode(func(r NodeRef) {
 			as, ok := r.Node().(*ast.AssignStmt)
